@@ -377,9 +377,10 @@ class Repo:
             except SyntaxError as e:
                 raise AnalysisError(f"cannot parse {rel}: {e}")
             if os.environ.get("TLSA_NO_LIFT") != "1":
-                from .normalise import counted_while_to_for, lambda_lift, unroll_table_loops
+                from .normalise import append_loop_to_comprehension, counted_while_to_for, lambda_lift, unroll_table_loops
 
                 counted_while_to_for(tree)
+                append_loop_to_comprehension(tree)
                 unroll_table_loops(tree)
                 lambda_lift(tree)
             is_pkg = rel.endswith("/__init__.py")
